@@ -1,5 +1,6 @@
 import Ruint.Lemmas.MacroLit
 import Ruint.Lemmas.GenMacro
+import Ruint.Lemmas.GenMacro2
 
 /-!
 # C19 â€” `uint!` literals equal run-time parsing of the same digits; bad literals are rejected
@@ -140,5 +141,18 @@ theorem gen_pad_limbs_eq (bits : â„•) (hB : bits + 63 < 2 ^ 64) (limbs : List â„
     (hf : limbs.length + nlimbs bits + 1 < f) :
     Ruint.Gen.macro_pad_limbs f bits limbs = padLimbs bits limbs :=
   Ruint.GenMacro.pad_limbs_eq bits hB limbs f hf
+
+/-! ## Tie of `parse_digits` to the source (G)
+
+`Ruint.Gen.macro_parse_digits` is regenerated from `ruint-macro/src/lib.rs` on every run: the byte-length test, `split_at(2)`
+(which panics inside a multi-byte character: `none`), the `match` on the prefixes `"0x"`, `"0o"`, `"0b"`, the character loop with
+its `match c` digit map (`char` range patterns, `c as u64 - '0' as u64`, `'_' => continue`, the two error returns), the
+digit-against-base test and the `u128` multiply-accumulate over the limbs with the final `push(carry)`. Declared rewrites: the
+two `format!` error strings are the codes `(0, c, 0)` / `(1, c, base)`. It is the model `parseDigits` that `transformLiteral`
+(and the theorems above) are built on â€” for every literal text. -/
+
+theorem gen_parse_digits_eq (cs : List Char) (hl : cs.length < 2 ^ 63) (f : â„•) (hf : 2 * cs.length + 4 < f) :
+    Ruint.GenMacro2.toRes (Ruint.Gen.macro_parse_digits f (cs.map Char.toNat)) = Ruint.Macro.parseDigits cs :=
+  Ruint.GenMacro2.parse_digits_eq cs hl f hf
 
 end Ruint.C19
